@@ -277,6 +277,44 @@ class FakeRowWriter:
         pass
 
 
+def native_resolution():
+    """class resolution by name (concrete sequences, no quantifier): classes defined AFTER a Cid already exists are
+    found by the next Cid exactly like built-ins; dotted type names use the last part; names are case-sensitive"""
+    from cutplace import interface, fields, checks, errors
+    failures = []
+    n = 0
+    interface.create_cid_from_string("d,format,delimited\nf,x\n")  # some Cid exists before the classes below are defined
+
+    class LateFieldFormat(fields.AbstractFieldFormat):
+        def __init__(self, field_name, is_allowed_to_be_empty, length, rule, data_format):
+            super().__init__(field_name, is_allowed_to_be_empty, length, rule, data_format, empty_value="")
+
+        def validated_value(self, value):
+            return value
+
+    class LateCheck(checks.AbstractCheck):
+        pass
+
+    for text, ok in (("d,format,delimited\nf,x,,,,Late\nc,some,Late,x\n", True),
+                     ("d,format,delimited\nf,x,,,,plugins.Late\n", True),
+                     ("d,format,delimited\nf,x,,,,late\n", False),
+                     ("d,format,delimited\nf,x\nc,some,late,x\n", False),
+                     ("d,format,delimited\nf,x,,,,LateFieldFormat\n", False),
+                     ("d,format,delimited\nf,x,,,,Text\nc,u,IsUnique,x\n", True)):
+        n += 1
+        try:
+            cid = interface.create_cid_from_string(text)
+            got = True
+            kinds = [type(f).__name__ for f in cid.field_formats] + [type(c).__name__ for c in cid.check_map.values()]
+        except errors.InterfaceError as e:
+            got, kinds = False, str(e)[:80]
+        except Exception as e:  # noqa
+            got, kinds = None, "%s: %s" % (type(e).__name__, e)
+        if got != ok:
+            failures.append(dict(key="class-resolution", what="CID %r: accepted=%r (%s), expected %r" % (text, got, kinds, ok), args=dict(cid=text)))
+    return dict(count=n, failures=failures, samples=[dict(query="native/class-resolution", cases=n)])
+
+
 def build(tier, seed):
     queries = []
     conf = [
@@ -312,7 +350,7 @@ def build(tier, seed):
                                  fkeys, ncheck, nrows, ragged or "full", fmt, at, mode, runs, 3 if fmt == "fixed" else 2),
                              budget_s=600 if tier == "quick" else 2400, per_path_timeout=90, replay=rp, functions=FUNCS,
                              stubs=("S-ROWS", "S-FMT") + (("row writer replaced by a recorder",) if mode == "writer" else ())))
-    return dict(queries=queries, warm=("strip",),
+    return dict(queries=queries, warm=("strip",), native=native_resolution,
                 assumptions=["'blank-stripping' in fixed-width data is str.strip() (all white space), as implemented"],
                 outside_claim=["interface.import_plugins (importlib, file system)", "tables above the bounds"],
                 exhaustive=False)
